@@ -1175,7 +1175,7 @@ End Unbuf.
 (* the document file existed, was buffered in this block, and the job is removed and used again in the block:
    the exit raises BufferedError and what was buffered for the re-created job is dropped (known finding 3) *)
 Definition prog_remove_in_block : list jitem :=
-  [JOpen 0 1; JOp 0 [] (OSet kc (JInt 1)); JEnter None; JOp 0 [] (OSet kx (JInt 2)); JRemove 0;
+  [JOpen 0 1 0; JOp 0 [] (OSet kc (JInt 1)); JEnter None; JOp 0 [] (OSet kx (JInt 2)); JRemove 0;
    JOp 0 [] OGet; JOp 0 [] (OSet kx (JInt 3)); JExit].
 
 Lemma remove_in_block_refuted_w :
@@ -1187,7 +1187,7 @@ Proof. vm_compute. split; reflexivity. Qed.
 (* ... whereas a job whose document was not on disk before the block starts afresh and ends with exactly the
    files of the unbuffered run (the seeded demo) *)
 Definition prog_remove_fresh : list jitem :=
-  [JOpen 0 1; JInit 0; JEnter None; JOp 0 [] (OSet kc (JInt 1)); JRemove 0; JInit 0; JOp 0 [] OGet;
+  [JOpen 0 1 0; JInit 0; JEnter None; JOp 0 [] (OSet kc (JInt 1)); JRemove 0; JInit 0; JOp 0 [] OGet;
    JOp 0 [] (OSetDefault kx (JBool true)); JExit].
 
 Lemma remove_in_block_fresh_w :
@@ -1195,3 +1195,31 @@ Lemma remove_in_block_fresh_w :
   map o_ret (skipn 6 obs) = [Ok (JObj []); Ok (JBool true); Ok JNull] /\
   o_files (last obs (model_obs (init_js 0) (Ok JNull))) = [(1, JObj [(kx, JBool true)])].
 Proof. vm_compute. split; reflexivity. Qed.
+
+(* ================= handle provenance and working directory ================= *)
+(* The model identifies a document by project + job (the file id): how a Job/Project object was obtained and
+   where the process's working directory points do not enter the model's state or results.  All handles on one
+   project/job therefore form ONE equivalence class; that the implementation agrees (absolute, normalised
+   file names as buffer keys) is what the correspondence checks on every provenance / chdir it generates. *)
+Lemma provenance_irrelevant : forall frepr js j f p p',
+  jstep frepr merge js (JOpen j f p) = jstep frepr merge js (JOpen j f p').
+Proof. reflexivity. Qed.
+
+Lemma cwd_irrelevant : forall frepr js d, jstep frepr merge js (JCwd d) = (js, Ok JNull).
+Proof. reflexivity. Qed.
+
+Fixpoint erase_prov (prog : list jitem) : list jitem :=
+  match prog with
+  | [] => []
+  | JOpen j f _ :: r => JOpen j f 0 :: erase_prov r
+  | it :: r => it :: erase_prov r
+  end.
+
+Lemma jrun_provenance : forall frepr prog js, jrun frepr merge js (erase_prov prog) = jrun frepr merge js prog.
+Proof.
+  intros frepr prog. induction prog as [|it prog IH]; intro js; [reflexivity|].
+  assert (H : forall it', jstep frepr merge js it' = jstep frepr merge js it ->
+              jrun frepr merge js (it' :: erase_prov prog) = jrun frepr merge js (it :: prog)).
+  { intros it' E. simpl. rewrite E. destruct (jstep frepr merge js it) as [js1 x]. rewrite IH. reflexivity. }
+  destruct it; simpl erase_prov; apply H; reflexivity.
+Qed.
